@@ -20,6 +20,21 @@ CHECKS = {
                 "harness. Assumes fresh objects (readOffset 0) and cap == len for decoder inputs; FilePath.Write modelled below 3.5 KB of path data. No axioms.",
         "technique": "Coq proof (round-trip/layout theorems, drain theorem over translator-generated reader shapes) + differential correspondence check",
     },
+    "C02": {
+        "text": "Theorems (Props/C02.v): (scan_independent) EVERY run of bufio.Scanner+transactionScanner - any non-empty pieces, any re-chunking "
+                "through the 64 KiB buffer, EOF, buffer-full - yields frames(bytes), a function of the byte string (incl. the uint32 wrap of the "
+                "size field and tokens shorter than a header); (stage_exact_consumption) io.ReadFull-style stages (handshake 12, preamble 16, "
+                "flattened-file headers) consume exactly their bytes under every chunking and leave the rest untouched; "
+                "(control_session_independent, upload_independent) the composed control session (handshake, tokens) and the upload stream "
+                "(preamble, headers, bytes written to the partial file, completeness) equal functions of the concatenated bytes for all chunk lists; "
+                "(payload_written_is_prefix) CopyN writes exactly firstn n of the stream. Correspondence: real sessions through "
+                "handleNewConnection over an in-memory connection whose reads return exactly the scripted pieces (all-at-once, one-byte, random, "
+                "header-splitting, exhaustive cuts of the first 9-13 bytes), the real bufio.Scanner with the real split function vs frames, and "
+                "real uploads through handleFileTransfer under segmentation; oracle: reply IDs / published file computed from the bytes alone.",
+        "note": "Trusted: Coq kernel; abstraction of bufio.Scanner, io.ReadFull, io.CopyN (validated against the real library each run); "
+                "net.Pipe as connection. TCP urgent data/deadlines not modelled. No axioms.",
+        "technique": "Coq proof (all-segmentations theorem by induction over scanner runs; staged-read refinement) + differential correspondence check over scripted segmentations",
+    },
     "C06": {
         "text": "Theorems (Props/C06.v) over the Gallina model of the amplification loop of HandleNewUser / HandleUpdateUser-create and of "
                 "HandleDisconnectUser: for ALL creator bitmaps and request field contents the created account holds copy8(request) and "
